@@ -8,6 +8,7 @@
 //! trusted: R15 (deep slice): maybe_read_channel_monitor_with_updates joins futures and iterator adapters; the unit extracts the filter predicate that selects the updates to replay verbatim; and the statement(s) between collecting the listed names and filtering them (the sort) verbatim as a function of the list; `updates` is an environment type standing for Vec<UpdateName> whose sort / sort_unstable / sort_by_key / sort_unstable_by_key / reverse carry the std contracts (permutation; ordered by Ord / by the key; a key closure `|u| E`, which Verus gives no specification, is rewritten into the closure returning `(E) as i128` with that as its postcondition, so only integer keys of at most 64 bits are understood, anything else is a tool error), and the derived Ord of UpdateName is taken to be the lexicographic order on (id, name) (trusted: #[derive(Ord)] on a tuple struct); reading and applying the updates in iteration order (MultiResultFuturePoller keeps the order of its futures) are dropped and not claimed
 //! plemma: C19 call-site precondition of KVStoreSync::remove in the blanket Persist impl's archive_persisted_channel: the live copy of a monitor is deleted only after the very bytes read from it were accepted by the archive namespace
 //! trusted: sync_persist: the three methods of `impl<K: KVStoreSync> Persist for K` are verified as inherent methods of a Store stub whose write reports its result through the uninterpreted write_ok, whose read of the live namespace returns live_value(key), and whose remove carries the archive precondition; ChannelMonitor::encode / MonitorName::to_key uninterpreted; enum ChannelMonitorUpdateStatus extracted; R5: the signer type parameter is dropped
+//! trusted: read_channel_monitors: the test that refuses a monitor stored under a key other than its own persistence key is sliced (keys compare by identity); listing, reading and decoding are dropped and not claimed
 //! assume: nobody else deletes from the archive namespace and the live value of the key does not change while archive_persisted_channel runs
 //! assume: stored_latest(key) is stable for the duration of the functions (no concurrent writer replaces the full monitor with an older one)
 //! trusted: assume_specification for core::cmp::max / core::cmp::min (std definitions): present in every unit so that a change that introduces them is verified instead of being rejected by the tool
@@ -308,6 +309,20 @@ impl ChannelMonitor {
     #[verifier::external_body] pub fn encode(&self) -> (r: Vec<u8>) ensures r@ == self.bytes() { unimplemented!() }
 }
 pub struct ChannelMonitorUpdate {}
+pub struct MonKey { pub id: u64 }
+impl vstd::std_specs::cmp::PartialEqSpecImpl for MonKey { open spec fn obeys_eq_spec() -> bool { true } open spec fn eq_spec(&self, other: &MonKey) -> bool { self.id == other.id } }
+impl PartialEq for MonKey { fn eq(&self, o: &MonKey) -> (r: bool) { self.id == o.id } }
+pub struct LoadedMonitor { pub key: MonKey }
+impl LoadedMonitor { #[verifier::external_body] pub fn persistence_key(&self) -> (r: MonKey) ensures r.id == self.key.id { unimplemented!() } }
+//@extract lightning/src/util/persist.rs :: fn read_channel_monitors
+//@slice R15
+    let monitor_name = MonitorName::from_str(&stored_key)?; if $c:cond { return Err($e:any); }
+//@with
+    fn monitor_is_refused_for_its_key(channel_monitor: &LoadedMonitor, monitor_name: MonKey) -> bool { $c }
+//@ret r
+//@ensures P C19 a-monitor-read-from-the-store-is-accepted-only-under-the-key-it-would-itself-be-persisted-under
+    r == (channel_monitor.key.id != monitor_name.id),
+//@end
 impl Store {
 //@extract lightning/src/util/persist.rs :: impl Sized Persist for K :: fn persist_new_channel
 //@strip chain
